@@ -472,7 +472,10 @@ def check_order(ctx, chk):
             ("nasim.scenarios.generator", "ScenarioGenerator", "_convert_to_process_map",
              ("processes",))):
         for res in dict_build_order(ctx, mod, cls, fn, attrs):
-            chk.ob("C09.order", res["construct"], res["ok"], res["detail"], res["loc"])
+            if res["ok"] is None:
+                chk.undecided("C09.order", res["construct"], res["detail"], res["loc"])
+            else:
+                chk.ob("C09.order", res["construct"], res["ok"], res["detail"], res["loc"])
 
 
 def check_order_stable(ctx, chk):
